@@ -56,6 +56,7 @@ class ClientRun:
         self.api_by_name = {n: (a, k) for n, a, k in self.api_surface}
         self.nops = 0
         self.last = self._proj()
+        self.last_ns = 0
         self.loop.after_callback = self._after_callback
 
     # ------------------------------------------------------------ projection
@@ -73,14 +74,15 @@ class ClientRun:
         for op in w.poll_ops():
             done.append([op.base, op.outcome, op.outcome not in ("ok", "Cancelled") and not op.outcome.startswith("RAW:")])
         p = self._proj()
-        changed = p != self.last or done or writes or self.step_subs
+        changed = p != self.last or done or writes or self.step_subs or len(self.user_stops) != self.last_ns
+        self.last_ns = len(self.user_stops)
         if cause == "int" and not changed:
             return
         if cause == "idle" and not changed and self.rows and self.rows[-1]["c"] == "idle":
             return
         self.last = p
         subs, self.step_subs = self.step_subs, []
-        self.rows.append({"c": cause, "a": args, "t": w.now_ms(), "pi": p[0], "sts": list(p[1]), "dn": done, "wn": len(writes), "w": writes, "sub": subs, "q": idle})
+        self.rows.append({"c": cause, "a": args, "t": w.now_ms(), "pi": p[0], "sts": list(p[1]), "dn": done, "wn": len(writes), "w": writes, "sub": subs, "q": idle, "ns": len(self.user_stops)})
 
     def _after_callback(self, handle) -> None:
         if self.cur is not None:
